@@ -204,6 +204,36 @@ func runC12Trace(c *core.Ctx) error {
 			used += len(m) + 2
 		}
 	}
+	// size: documents with hundreds (thorough: thousands) of members, long literals, deep nesting
+	{
+		sizes := []int{17, 65, 257, 1025}
+		if c.Thorough() {
+			sizes = append(sizes, 4097)
+		}
+		scal := []string{"0", "-1.5", "true", "null", `"a"`, `"\\n"`, "12", `""`, "false", "1e2"}
+		for _, n := range sizes {
+			var arr, obj strings.Builder
+			arr.WriteString("[")
+			obj.WriteString("{")
+			for i := 0; i < n; i++ {
+				if i > 0 {
+					arr.WriteString(",")
+					obj.WriteString(", ")
+				}
+				arr.WriteString(scal[(i+n)%len(scal)])
+				fmt.Fprintf(&obj, `"k%d":%s`, i, scal[(i*3+n)%len(scal)])
+			}
+			arr.WriteString("]")
+			obj.WriteString("}")
+			docs = append(docs, jdTraceDoc{Src: "scaled", Input: []byte(arr.String())}, jdTraceDoc{Src: "scaled", Input: []byte(obj.String())})
+			if n <= 300 {
+				docs = append(docs, jdTraceDoc{Src: "scaled", Input: []byte(strings.Repeat("[", n) + strings.Repeat("]", n))},
+					jdTraceDoc{Src: "scaled", Input: []byte(strings.Repeat(`{"a":`, n) + "1" + strings.Repeat("}", n))},
+					jdTraceDoc{Src: "scaled", Input: []byte(`"` + strings.Repeat("ab\\u0041", n) + `"`)},
+					jdTraceDoc{Src: "scaled", Input: []byte("-" + strings.Repeat("9", n) + "." + strings.Repeat("0", n) + "1e-" + strings.Repeat("3", 3))})
+			}
+		}
+	}
 	validated := 0
 	for _, trailing := range []bool{false, true} {
 		cfg := "JsonDocTrace_plain.cfg"
